@@ -31,6 +31,10 @@ func ptr[T any](v T) *T      { return &v }
 
 func schema(quant string) models.IndexSchema {
 	var q *models.Quantizer
+	if quant == "product" {
+		// trigger threshold 3 instead of the HTTP layer's minimum of 1000: same code path, training reachable within the bound
+		q = &models.Quantizer{Type: models.QuantizerProduct, Product: &models.ProductQuantizerParameters{NumCentroids: 2, NumSubVectors: 2, TriggerThreshold: 3}}
+	}
 	if quant == "binlearned" {
 		q = &models.Quantizer{Type: models.QuantizerBinary, Binary: &models.BinaryQuantizerParamaters{TriggerThreshold: 3, DistanceMetric: models.DistanceHamming}}
 	}
@@ -234,11 +238,12 @@ func (s *system) battery(name string, in *sl.Inst) {
 	// flat indexes: exact
 	for _, p := range []string{"flat", "ham"} {
 		params := sc[p].VectorFlat
-		env, err := sl.EnvFor(params.DistanceMetric, params.Quantizer, 4, d["index/vectorFlat/"+p])
+		env, err := sl.EnvFor(params.DistanceMetric, params.Quantizer, 4, d["index/vectorFlat/"+p], sl.NodeIds(d))
 		if err != nil {
 			o.Fail("harness-env", "%v", err)
 			continue
 		}
+		sl.PQCheck(o, "flat", env, s.m, p)
 		qv := queries
 		if p == "ham" {
 			qv = hqueries
@@ -333,7 +338,7 @@ func (s *system) Close() {
 }
 
 func master(cfg *harness.Config, rep *harness.Report) {
-	rep.Rule = "every write history up to the depth over the union of the point / filter / flat / text / graph write alphabets on a nine-index schema (with and without a learned binary quantiser), executed in lock-step on five instances: bbolt with unlimited, 1-byte and disabled shared cache, bbolt closed and reopened with a fresh cache manager after every batch, and memstore (successful batches only). After every batch every instance answers the whole battery (reads by id, select-all, raw point store, ~100 filter queries, exact flat k-NN on two indexes, text tf-idf, graph search safety + exact regimes, graph well-formedness) and must equal the reference model, hence each other; on the reopened instance the bucket dump before close, after reopen and after the queries must be identical"
+	rep.Rule = "every write history up to the depth over the union of the point / filter / flat / text / graph write alphabets on a nine-index schema (without quantiser, with a learned binary quantiser, with a product quantiser trained at 3 points: each instance learns its own centroids and is compared with its own read-back reference), executed in lock-step on five instances: bbolt with unlimited, 1-byte and disabled shared cache, bbolt closed and reopened with a fresh cache manager after every batch, and memstore (successful batches only). After every batch every instance answers the whole battery (reads by id, select-all, raw point store, ~100 filter queries, exact flat k-NN on two indexes, text tf-idf, graph search safety + exact regimes, graph well-formedness) and must equal the reference model, hence each other; on the reopened instance the bucket dump before close, after reopen and after the queries must be identical"
 	rep.Assumptions = []string{"approximate graph answers outside the exact regimes are not compared across instances (entry vector and reuse order are random)", "bbolt commit atomicity and fsync are trusted"}
 	p := pool.New(pool.Options{CPUsPerWorker: 2, JobTimeout: 120 * time.Second})
 	syms := symbols()
@@ -352,6 +357,7 @@ func master(cfg *harness.Config, rep *harness.Report) {
 	specs := []seqx.Spec{
 		{Name: "lockstep/no-quantiser", Cfg: cfgT{"none"}, Alphabet: syms.Refs(), Depth: depth},
 		{Name: "lockstep/learned-binary-quantiser", Cfg: cfgT{"binlearned"}, Alphabet: syms.Refs(), Depth: depth},
+		{Name: "lockstep/product-quantiser", Cfg: cfgT{"product"}, Alphabet: syms.Refs(), Depth: depth},
 	}
 	seqx.Explore(cfg, rep, p, specs)
 }
